@@ -6,14 +6,16 @@ def plan(tier, seed):
     q = tier == "quick"
     conds = []
     if q:
-        conds += hist_conds("c11", 2, 240, {"C11_PRETEXT": 0}, by_name=True, nd=2)
+        conds += hist_conds("c11", 2, 240, {"C11_PRETEXT": 0}, by_name=True, nd=1)
         conds += hist_conds("c11", 2, 240, {"C11_PRETEXT": 1}, nn=2, nd=2)
+        conds += hist_conds("c11", 2, 240, {"C11_PRETEXT": 2}, nn=2, nd=1)
         conds += [c for c in hist_conds("c11", 3, 280, {"C11_PRETEXT": 0}, by_name=True, nn=2, nd=1) if "-add-" in c.name]
-        conds += [c for c in hist_conds("c11", 3, 280, {"C11_PRETEXT": 1}, by_name=True, nn=2, nd=1) if "-add-" in c.name]
-        b = ("all histories of length 2 (3 names x 2 definitions, default markers; 2 x 2 with custom markers); "
-             "all histories of length 3 over 2 names x 1 definition that start with addfilter (both marker sets)")
+        conds += [c for c in hist_conds("c11", 3, 280, {"C11_PRETEXT": 2}, by_name=True, nn=2, nd=1) if "-add-" in c.name]
+        b = ("all histories of length 2 (3 names + a bytes alias x 1 definition, default markers; 2 x 2 with custom markers; 2 x 1 with "
+             "markers containing regex metacharacters); all histories of length 3 over 2 names that start with addfilter "
+             "(default markers and markers with metacharacters)")
     else:
-        for pt in (0, 1):
+        for pt in (0, 1, 2):
             conds += hist_conds("c11", 3, 3000, {"C11_PRETEXT": pt}, by_name=True)
         conds += hist_conds("c11", 4, 3000, {"C11_PRETEXT": 0}, by_name=True, nn=2, nd=1)
         b = ("all histories of length 3 with default and custom markers (3 names x 3 definitions); "
